@@ -123,6 +123,45 @@ func sampleThreads(pid int) (threadSample, bool) {
 // goIdle reports whether an (uninstrumented) go command process is waiting for
 // its children rather than working: every thread sleeps in a wait-type syscall
 // and the process consumed (almost) no CPU over the sampling interval.
+// goIdleRelaxed is goIdle for a process that may additionally be blocked
+// writing to (or reading from) a pipe: all threads asleep, no CPU consumed.
+func goIdleRelaxed(pid int, interval time.Duration) bool {
+	asleep := func() (uint64, int, bool) {
+		dir := "/proc/" + strconv.Itoa(pid) + "/task"
+		ents, err := os.ReadDir(dir)
+		if err != nil {
+			return 0, 0, false
+		}
+		var run uint64
+		n := 0
+		for _, e := range ents {
+			t := filepath.Join(dir, e.Name())
+			st, err := os.ReadFile(t + "/stat")
+			if err != nil {
+				continue
+			}
+			r := bytes.LastIndexByte(st, ')')
+			if r < 0 || r+2 >= len(st) || st[r+2] != 'S' {
+				return 0, 0, false
+			}
+			if ss, err := os.ReadFile(t + "/schedstat"); err == nil {
+				f, _, _ := strings.Cut(string(ss), " ")
+				v, _ := strconv.ParseUint(f, 10, 64)
+				run += v
+			}
+			n++
+		}
+		return run, n, n > 0
+	}
+	a, na, ok := asleep()
+	if !ok {
+		return false
+	}
+	time.Sleep(interval)
+	b, nb, ok := asleep()
+	return ok && na == nb && b-a < 100_000
+}
+
 func goIdle(pid int, interval time.Duration) bool {
 	a, ok := sampleThreads(pid)
 	if !ok || !a.allIdle {
